@@ -1,5 +1,5 @@
 //@unit sm2_util
-//@serves C03 C04 C05 C06 C15
+//@serves C03 C04 C05 C06 C15 C20
 //@source gm-sm2/src/util.rs
 //@assume str bytes: shim_str_len / shim_str_bytes return the length and the UTF-8 bytes of a &str (external_body shims whose body is the replaced std call)
 //@assume ((klen as f64) / 32.0).ceil() as u32 == ceil(klen / 32) for klen < 2^53 (shim_ceil_div32, external_body whose body is the replaced expression)
@@ -122,7 +122,7 @@ proof fn lemma_util_consts()
 //@section code gm-sm2/src/util.rs
 const DEFAULT_ID: &'static str = "1234567812345678";
 
-//@props C03 C04 C15
+//@props C03 C04 C15 C20
 fn compute_za(id: &str, pk: &Point) -> (res: Sm2Result<[u8; 32]>)
     requires wf(*pk), val4(pk.z@) != 0, str_bytes(id).len() < 0x1000_0000_0000_0000
     ensures
@@ -169,7 +169,7 @@ fn compute_za(id: &str, pk: &Point) -> (res: Sm2Result<[u8; 32]>)
     Ok(sm3_hash(&prepend))
 }
 
-//@props C05 C06
+//@props C05 C06 C20
 fn xor_bytes(a: &[u8], b: &[u8]) -> (result: Vec<u8>)
     requires a@.len() == b@.len()
     ensures result@ == s_xor(a@, b@)
@@ -186,7 +186,7 @@ fn xor_bytes(a: &[u8], b: &[u8]) -> (result: Vec<u8>)
     result
 }
 
-//@props C05 C06 C15
+//@props C05 C06 C15 C20
 fn kdf(z: &[u8], klen: usize) -> (h_a: Vec<u8>)
     requires 1 <= klen < 0x1_0000_0000, z@.len() < 0x1000_0000_0000_0000
     ensures h_a@ == s_kdf(z@, klen as nat)
